@@ -322,11 +322,12 @@ def arith(I, st, tys, method, args):
 
 
 def derive_ops(I, st, vals, ops):
-    from absint import norm_atoms
+    from absint import norm_atoms, STAR
     at = set()
     for v in vals:
         for (o, oo) in I.flat(st, v):
             if oo and o.startswith("Const("):
+                at.add((o, STAR))
                 continue
             at.add((o, oo | frozenset(ops)))
     return Val(norm_atoms(frozenset(at)))
@@ -671,8 +672,8 @@ def storage(I, st, frame, t, name, tys, method, args, ev):
         bounds = I.derive(st, [D(a) for a in args[2:]], "bound")
         pk = a0.fields.get("#may:key", EMPTY) if I.refs_of(a0) == [] else D(a0).fields.get("#may:key", EMPTY)
         bk = Val(bounds.atoms | I.derive(st, [pk], "bound").atoms)
-        el = Val(frozenset(), {"0": Val(V("Store(%s)#key" % item).atoms | bk.atoms),
-                               "1": with_tag(Val(V("Store(%s)" % item).atoms | bk.atoms), "#may:key", bk)})
+        el = Val(frozenset(), {"0": with_tag(V("Store(%s)#key" % item), "#may:key", bk),
+                               "1": with_tag(V("Store(%s)" % item), "#may:key", bk)})
         if ev is not None:
             ev.extra["key"] = bk
         if method.startswith("keys"):
@@ -733,13 +734,13 @@ def cosmwasm(I, st, frame, t, name, self_ty, tys, trait, method, args, ev):
     if tys == "QuerierWrapper" or "QuerierWrapper" in name:
         if method == "query_balance":
             return ret_tag(Val(frozenset(), {"denom": without_call(D(args[2])),
-                                             "amount": Val(frozenset([("Query(balance)", NOOPS)]) |
-                                                           I.derive(st, [D(args[1]), D(args[2])], "query").atoms)}),
+                                             "amount": with_tag(V("Query(balance)"), "#may:key",
+                                                                I.derive(st, [D(args[1]), D(args[2])], "query"))}),
                            name)
         if method == "query_supply":
             return ret_tag(Val(frozenset(), {"denom": without_call(D(args[1])),
-                                             "amount": Val(frozenset([("Query(supply)", NOOPS)]) |
-                                                           I.derive(st, [D(args[1])], "query").atoms)}), name)
+                                             "amount": with_tag(V("Query(supply)"), "#may:key",
+                                                                I.derive(st, [D(args[1])], "query"))}), name)
         if method in ("query_wasm_smart", "query"):
             msg = D(args[2]) if len(args) > 2 else EMPTY
             variant = None
@@ -749,10 +750,9 @@ def cosmwasm(I, st, frame, t, name, self_ty, tys, trait, method, args, ev):
                     if tv and len(tv) == 1:
                         variant = list(tv)[0]
             origin = "Query(%s)" % (variant or "wasm_smart")
-            return ret_tag(Val(frozenset([(origin, NOOPS)]) | I.derive(st, [D(a) for a in args[1:]], "query").atoms),
-                           name)
-        return ret_tag(Val(frozenset([("Query(%s)" % method, NOOPS)]) |
-                           I.derive(st, [D(a) for a in args[1:]], "query").atoms), name)
+            return ret_tag(with_tag(V(origin), "#may:key", I.derive(st, [D(a) for a in args[1:]], "query")), name)
+        return ret_tag(with_tag(V("Query(%s)" % method), "#may:key", I.derive(st, [D(a) for a in args[1:]], "query")),
+                       name)
     if tys == "Response":
         if method in ("new", "default"):
             return V("Const(Response)")
